@@ -166,12 +166,26 @@ TIES = {
  'C01': ('translate/pystim2coq.py -> coq/gen/StimIdxGen.v: stim.envelope index arithmetic, GateFactory / EnvelopeFactory / FixedWaveform / '
          'SquareWaveFactory next() and queries, _sam_envelope; tie theorems Stim/ProofsTie.v (C01_source_*): generated = model for all inputs'),
  'C09': ('translate/pystim2coq.py -> coq/gen/StimIdxGen.v (as C01); C09_source_* restate totals / bookkeeping / shape / rise rejection over the generated definitions'),
- 'C05': ('translate/pycapture2coq.py -> coq/gen/CaptureGen.v: the capture_epoch coroutine as a step function and the look-back bookkeeping of '
-         'extract_epochs; tie theorems Extract/ProofsTie.v (C05_source_*)'),
- 'C12': ('translate/pycoro2coq.py -> coq/gen/StagesStepGen.v: discard, blocked, downsample, derivative, decimate coroutines as step functions; '
+ 'C05': ('translate/pycapture2coq.py -> coq/gen/CaptureGen.v: the capture_epoch coroutine as a step function and the WHOLE loop body of extract_epochs (removal '
+         'drain, intake, replay, delivery, pruning, all-done callback) as a send function; tie theorems Extract/ProofsTie.v, ProofsTieSend.v (C05_source_*), incl. '
+         'C05_source_refines_spec over runs of the generated send'),
+ 'C12': ('translate/pycoro2coq.py -> coq/gen/StagesStepGen.v: discard, blocked, downsample, derivative, decimate, rms, event_rate, transform, mc_reference, '
+         'iirfilter coroutines as step functions; '
          'tie theorems Stages/ProofsTie.v (C12_source_*): generated step = model step for ALL states and chunks'),
  'C14': ('translate/pybuffer2coq.py -> coq/gen/BufferStepGen.v: every SignalBuffer method statement by statement; tie theorems Buffer/ProofsTie.v '
          '(C14_source_*): reads equal for every state, mutators equal under the buffer invariant up to slots below the valid start'),
+ 'C02': ('translate/pyqueue2coq.py -> coq/gen/QueueStepGen.v: _get_samples_waveform / _get_samples_generator, remove_key, decrement_key and next_key of every queue '
+         'class, pop_key, pop_next, next_trial, _pop_buffer and the pop_buffer loop; tie theorems Queue/ProofsTie.v (C02_source_*): same state, value and '
+         'notifications as the model for every well-formed queue state'),
+ 'C03': ('translate/pyqueue2coq.py -> coq/gen/QueueStepGen.v (as C02); C03_source_* restate policy order / after-empty over runs of the generated pop_buffer'),
+ 'C10': ('translate/pydeterm2coq.py -> coq/gen/DetermGen.v: an ALIASING translator (fresh array / view / in-place write / read-only flag per NumPy operation) of '
+         'fast_cache, FixedWaveform.next, GateFactory.next, ToneFactory / SilenceFactory next and the reset methods; tie theorems Determ/ProofsTie.v (C10_source_*)'),
+ 'C11': ('translate/pypdata2coq.py -> coq/gen/PDataGen.v: normalize_index in full and the annotation fix-up of PipelineData.__getitem__; tie theorems '
+         'PData/ProofsTie.v (C11_source_*): generated = model for every index value and every array'),
+ 'C13': ('translate/pyedges2coq.py -> coq/gen/EdgesGen.v (on top of gen/RunsGen.v): the edges coroutine as start / step functions, Events.get_range_samples / '
+         'get_latest_samples; tie theorems Edges/ProofsTie.v (C13_source_*)'),
+ 'C17': ('translate/pyreject2coq.py -> coq/gen/RejectGen.v: reject_epochs set-up and loop body over a small NumPy vocabulary (coq/Reject/NumpyPrims.v); tie theorems '
+         'Reject/ProofsTie.v (C17_source_*)'),
  'C18': ('translate/pyruns2coq.py -> coq/gen/RunsGen.v: util.ts / edge_rising / edge_falling / epochs (pad = 0) / smooth_epochs / debounce_epochs over '
          'a small NumPy vocabulary (coq/Runs/NumpyPrims.v); tie theorems Runs/ProofsTie.v (C18_source_*): generated = model for every input'),
 }
